@@ -183,6 +183,8 @@ class World:
         self.reuse = 0
         self.step = 10                   # ms between two edits
         self.initial_on = 0              # ms grid of the initial files' mtimes (0: the ordinary 10 ms steps)
+        self.relative = False            # edits move a file's time by `step` from the time IT had (not from the clock)
+        self.assigned = {}
 
     def p(self, name):
         return self.sc.path("r/" + name)
@@ -191,9 +193,15 @@ class World:
         if self.initial_on:
             # initial files: modification times on whole (even) seconds, as archives, FAT media or `touch -d` give them
             self.clock = (self.clock // self.initial_on + 1) * self.initial_on
+            t = self.clock
+        elif self.relative and path in self.assigned:
+            # the edit lands `step` ms after the time the file had (inside the same second / the same two seconds)
+            t = self.assigned[path] + self.step
         else:
             self.clock += self.step
-        os.utime(path, ns=(self.clock * 1_000_000, self.clock * 1_000_000))
+            t = self.clock
+        self.assigned[path] = t
+        os.utime(path, ns=(t * 1_000_000, t * 1_000_000))
 
     def tick_back(self, path):
         self.past -= 10
@@ -415,6 +423,7 @@ def evaluate(case):
         os.makedirs(sc.path("r"))
         if case.get("clock"):
             w.initial_on, w.step = case["clock"]
+            w.relative = True
         for name, v in INITIAL:
             w.write(name, C.content(VARIANTS[v]))
         w.write("s1", b"small file content")
